@@ -3272,6 +3272,11 @@ impl LineBuf {
 						return Ok(())
 					}
 				}
+				// Where the lines of a line motion (G, gg) begin, as long as they are still there
+				let lines_start = match &motion {
+					MotionKind::LineOffset(_) => self.range_from_motion(&motion).map(|(start,_)| start),
+					_ => None
+				};
 				let content = self.get_register_content(&verb, &motion);
 				register.write_to_register(content);
 				if let Some(SelectRange::TwoDim(sel)) = self.select_range.as_ref() {
@@ -3302,6 +3307,10 @@ impl LineBuf {
 								self.cursor.set(start);
 								self.cursor.add(end.min(pos));
 							}
+						MotionKind::LineOffset(_) if verb == Verb::Change && lines_start.is_some() => {
+							// 'cG', 'cgg': the lines are emptied and the typed text goes where they began
+							self.cursor.set(lines_start.unwrap_or_default());
+						}
 						MotionKind::LineOffset(offset) if verb == Verb::Yank && !self.is_selecting() => {
 							// 'yG' leaves the cursor alone, 'ygg' takes it to the first of the lines, in its column
 							if offset < 0 {
